@@ -80,6 +80,7 @@ class Array:
         #self._arrayinfo = self._read_arraydescr()
         self._memmap = None
         self._valuesfd = None
+        self._memmapusers = 0
         self._check_arrayinfoconsistency()
         with self._open_array() as (ar, _):
             self._dtype = ar.dtype
@@ -203,32 +204,35 @@ class Array:
                                       makebinary=False)
         filemode = check_accessmode(accessmode, validmodes=('r', 'r+'),
                                     makebinary=True)
-        if self._memmap is not None:
-            yield self._memmap, self._valuesfd
-        else:
+        if self._memmap is None:
+            # we must do it like this instead of providing a filename
+            # to np.mmemap, otherwise accessing temporary dirs on
+            # windows will fail
+            fd = open(file=self._datapath, mode=filemode)
             try:
-                # we must do it like this instead of providing a filename
-                # to np.mmemap, otherwise accessing temporary dirs on 
-                # windows will fail
-                with open(file=self._datapath, mode=filemode) as fd:
-                    self._valuesfd = fd
-                    d = self._arrayinfo
-                    dtypedescr = arrayinfotodtype(d)
-                    if product(d['shape']) == 0:  # empty file/array
-                        self._memmap = np.zeros(d['shape'], dtype=dtypedescr,
-                                                order=d['arrayorder'])
-                        # stand-in must honor the access mode like a memmap
-                        self._memmap.flags.writeable = (memmapmode == 'r+')
-                    else:
-                        self._memmap = np.memmap(filename=fd,
-                                                 mode=memmapmode,
-                                                 shape=d['shape'],
-                                                 dtype=dtypedescr,
-                                                 order=d['arrayorder'])
-                    yield self._memmap, self._valuesfd
+                d = self._arrayinfo
+                dtypedescr = arrayinfotodtype(d)
+                if product(d['shape']) == 0:  # empty file/array
+                    memmap = np.zeros(d['shape'], dtype=dtypedescr,
+                                      order=d['arrayorder'])
+                    # stand-in must honor the access mode like a memmap
+                    memmap.flags.writeable = (memmapmode == 'r+')
+                else:
+                    memmap = np.memmap(filename=fd, mode=memmapmode,
+                                       shape=d['shape'], dtype=dtypedescr,
+                                       order=d['arrayorder'])
             except Exception:
+                fd.close()
                 raise
-            finally:
+            self._memmap, self._valuesfd = memmap, fd
+        # the map is shared by all nested or interleaved users (contexts,
+        # iterators); the one that finishes last closes it
+        self._memmapusers += 1
+        try:
+            yield self._memmap, self._valuesfd
+        finally:
+            self._memmapusers -= 1
+            if self._memmapusers == 0:
                 if hasattr(self._memmap, '_mmap'):
                     self._memmap._mmap.close() # *may need this for Windows*
                 self._valuesfd.close()
